@@ -1286,11 +1286,12 @@ event Encoded:
     h: bytes32
 
 blob: public(Bytes[224])
+blob2: public(Bytes[128])
 
 @external
 def enc2(a: uint256, b: Bytes[10]) -> Bytes[128]:
     r: Bytes[128] = abi_encode(a, b)
-    self.blob = r
+    self.blob2 = r
     log Encoded(n=len(r), h=keccak256(r))
     return r
 
@@ -1319,7 +1320,7 @@ def enc_struct(s: S, xs: DynArray[uint256, 2]) -> uint256:
 def dec_blob2() -> (uint256, Bytes[10]):
     a: uint256 = 0
     b: Bytes[10] = b""
-    a, b = abi_decode(slice(self.blob, 0, 128), (uint256, Bytes[10]))
+    a, b = abi_decode(self.blob2, (uint256, Bytes[10]))
     return a, b
 
 @external
@@ -1369,7 +1370,7 @@ struct Cfg:
     fee: uint256
     on: bool
 
-event Init:
+event Booted:
     helper: address
     seed: bytes32
 
@@ -1394,24 +1395,24 @@ nuses: public(uint256)
 
 @deploy
 def __init__(helper: address):
-    HELPER_ADDR = helper
-    OWNER = msg.sender
-    START = block.number * 100 + MAXN
+    self.HELPER_ADDR = helper
+    self.OWNER = msg.sender
+    self.START = block.number * 100 + MAXN
     s: bytes32 = keccak256(convert(helper, bytes32))
     w: uint256[3] = [0, 0, 0]
     for i: uint256 in range(3):
         w[i] = TABLE[i + 1] + convert(s, uint256) % 7
         s = keccak256(s)
-    SEED = s
-    WEIGHTS = w
-    LABEL = concat(NAME, "-", uint2str(MAXN))
+    self.SEED = s
+    self.WEIGHTS = w
+    self.LABEL = concat(NAME, "-", "v10")
     self.cfg = DEFAULT_CFG
-    log Init(helper=helper, seed=s)
+    log Booted(helper=helper, seed=s)
 
 @external
 def use(i: uint256) -> uint256:
     self.nuses += 1
-    return WEIGHTS[i % 3] * TABLE[i % 4] + START + self.nuses
+    return self.WEIGHTS[i % 3] * TABLE[i % 4] + self.START + self.nuses
 
 @external
 @view
@@ -1421,7 +1422,7 @@ def consts() -> (uint256, int128, bytes4, address, uint256):
 @external
 @view
 def imms() -> (address, address, uint256, bytes32, String[12]):
-    return HELPER_ADDR, OWNER, START, SEED, LABEL
+    return self.HELPER_ADDR, self.OWNER, self.START, self.SEED, self.LABEL
 
 @external
 def set_fee(f: uint256) -> Cfg:
@@ -1442,7 +1443,7 @@ def masked(b: bytes4) -> (bytes4, bool):
 def table_sum(n: uint256) -> uint256:
     t: uint256 = 0
     for i: uint256 in range(n % 5, bound=4):
-        t += TABLE[i] * WEIGHTS[i % 3]
+        t += TABLE[i] * self.WEIGHTS[i % 3]
     return t
 ''')
 
@@ -1852,15 +1853,15 @@ def check(x: uint256) -> uint256:
 
 @external
 def check_dyn(x: uint256) -> uint256:
-    assert x % 3 != 0, self.msg_
+    assert x % 4 != 0, self.msg_
     self.limit += x
     return self.limit
 
 @external
 @pure
 def check_built(x: uint256) -> uint256:
-    reason: String[40] = concat("bad value ", uint2str(x % 256))
-    if x % 2 == 1:
+    reason: String[88] = concat("bad value ", uint2str(x % 256))
+    if x % 2 == 0:
         raise reason
     return x // 2
 
@@ -1891,7 +1892,7 @@ def set_msg(s: String[24], lim: uint256):
 @view
 def chained(a: uint256, b: uint256) -> uint256:
     assert a + b <= self.limit * 4, "sum"
-    assert a * b != 12
+    assert a * b != 20
     return self._inner(a) + self._inner(b)
 
 @internal
